@@ -223,10 +223,65 @@ def ob_env_hash():
     return h
 
 
+class FakeStore:
+    """stands for the OptionStore the cache reads its search paths from (picklable: the cache is part of coredata.dat)"""
+    def __init__(self): self.vals = {'pkg_config_path': [], 'cmake_prefix_path': []}
+    def get_value_for(self, key): return list(self.vals[key.name])
+
+
+class FakeDep:
+    def __init__(self, type_name, ident): self.type_name = type_name; self.ident = ident
+
+
+def ob_dependency_cache(nsteps):
+    """coredata.DependencyCache across a history of put / get / option changes with a pickle round trip (= the next meson run) before every step: a lookup
+    answers exactly what was stored under the CURRENT value of the search path its dependency type depends on - what a fresh build directory with the same
+    options would find - never something remembered from an earlier value"""
+    def h():
+        import pickle
+        from mesonbuild import coredata
+        from mesonbuild.mesonlib import MachineChoice
+        store = FakeStore()
+        cache = coredata.DependencyCache(store, MachineChoice.HOST)
+        ref = {}          # (key, value of the search path of the dependency's type at the time of put) -> dep ident; a lookup uses the type of the key's first put, as the real cache does
+        ftype = {}
+        optname = {'pkgconfig': 'pkg_config_path', 'cmake': 'cmake_prefix_path', 'other': None}
+        cur = lambda t: tuple(store.vals[optname[t]]) if optname[t] else ()
+        n = 0
+        for s in range(nsteps):
+            if choose(2, 'new run before step %d' % s):
+                cache, store2 = pickle.loads(pickle.dumps((cache, store)))
+                check(True, 'pickles'); store = store2
+            op = choose(4, 'op%d' % s)
+            key = ('dep' + 'ab'[choose(2, 'key%d' % s)],)
+            if op == 0:
+                t = ['pkgconfig', 'cmake', 'other'][choose(3, 'type%d' % s)]
+                n += 1
+                cache.put(key, FakeDep(t, n))
+                if key not in ftype: ftype[key] = t
+                ref[(key, cur(t))] = n
+            elif op == 1:
+                got = cache.get(key)
+                t = ftype.get(key)
+                exp = ref.get((key, cur(t))) if t is not None else None
+                check((got.ident if got is not None else None) == exp, 'get() answers what was stored under the current search path (None if nothing was)')
+            else:
+                name = 'pkg_config_path' if op == 2 else 'cmake_prefix_path'
+                store.vals[name] = [[], ['/A'], ['/B']][choose(3, 'path%d' % s)]
+        # the final view of the whole cache
+        for key in (('depa',), ('depb',)):
+            got = cache.get(key); t = ftype.get(key)
+            exp = ref.get((key, cur(t))) if t is not None else None
+            check((got.ident if got is not None else None) == exp, 'final get() answers for the current options only')
+        cover('done')
+    return h
+
+
 def obligations(tier):
     return [Obligation('replace-if-different', ob_replace(), dict(old='absent | 0-2 chars over a b newline', new='0-2 chars'), labels=('kept', 'replaced')),
             Obligation('buildoptions-order', ob_buildoptions(), dict(options='b_lto b_ndebug b_pie, symbolic values', insertion_order='every permutation'), labels=('done',)),
             Obligation('ninja-deps-order', ob_ninja_order(), dict(deps='4: a, ./a, one symbolic of 3 chars over a . /, one of 1 char', orderdeps='3 (1 symbolic)', insertion_order='every permutation of both'), labels=('done',), max_paths=2000000),
             Obligation('optionkey-order', ob_optionkey_order(), dict(keys='2: name 1 char over abc, subproject None | "" | a | b, machine host | build'), labels=('done',)),
             Obligation('env-hash-order', ob_env_hash(), dict(variables='2 set + 2 unset, distinct symbolic names', order='every permutation'), labels=('done',)),
-            Obligation('unique-list', ob_ordered(), dict(elements='1-4 symbolic'), labels=('done',))]
+            Obligation('unique-list', ob_ordered(), dict(elements='1-4 symbolic'), labels=('done',)),
+            Obligation('dependency-cache-history', ob_dependency_cache(3 if tier == 'quick' else 4), dict(steps=3 if tier == 'quick' else 4, operations='put (3 dependency types) | get | set pkg_config_path | set cmake_prefix_path', keys=2, paths='[] /A /B', persistence='optional pickle round trip before every step'), labels=('done',), max_paths=3000000)]
